@@ -203,7 +203,8 @@ func (chain *BlockChain) ProcGetBlockDetailsMsg(requestblock *types.ReqBlocks) (
 		chainlog.Error("ProcGetBlockDetailsMsg input must Start <= End:", "Startheight", requestblock.Start, "Endheight", requestblock.End)
 		return nil, types.ErrEndLessThanStartHeight
 	}
-	if requestblock.End-requestblock.Start >= types.MaxBlockCountPerTime {
+	//Start为负数时End-Start可能溢出int64变为负值(此处已保证Start <= End), 同样视为超出数量限制
+	if requestblock.End-requestblock.Start >= types.MaxBlockCountPerTime || requestblock.End-requestblock.Start < 0 {
 		return nil, types.ErrMaxCountPerTime
 	}
 	chainlog.Debug("ProcGetBlockDetailsMsg", "Start", requestblock.Start, "End", requestblock.End, "Isdetail", requestblock.IsDetail)
